@@ -125,3 +125,37 @@ Print Assumptions C07_replay_rejected_reason.
 Print Assumptions C07_epoch_window.
 Print Assumptions C07_validated_window.
 Print Assumptions C07_no_panic.
+
+(* theorem-level non-vacuity of C07_no_replay: a concrete instance satisfying every hypothesis (an
+   intent expiring at epoch 207 commits as a failure at epoch 10, then 150 epoch changes including a
+   partition rotation), to which the theorem is applied *)
+Example C07_no_replay_nonvacuous :
+  let st0 := mkState 7 (tracker_new c07_p_lo c07_p_hi c07_epp 7) [] in
+  let n := mkNull KTx 1 207 in
+  let sub := mkSubmit 7 207 [n] in
+  exists st2,
+    TInv st0 /\ do_step (exec st0 (nexts 3)) (Submit sub ExFailure) = (RCommit false, st2)
+    /\ In n (s_nulls sub) /\ recorded false n = true
+    /\ Margin (exec st2 (nexts 150)) /\ cur (exec st2 (nexts 150)) < n_expiry n
+    /\ start_partition (trk (exec st2 (nexts 150))) = 66
+    /\ (forall oc' ok', fst (do_step (exec st2 (nexts 150)) (Submit sub oc')) <> RCommit ok').
+Proof.
+  cbv zeta.
+  destruct (do_step (exec (mkState 7 (tracker_new c07_p_lo c07_p_hi c07_epp 7) []) (nexts 3))
+                    (Submit (mkSubmit 7 207 [mkNull KTx 1 207]) ExFailure)) as [r st2] eqn:E.
+  exists st2.
+  assert (Hi : TInv (mkState 7 (tracker_new c07_p_lo c07_p_hi c07_epp 7) []))
+    by (apply tracker_new_inv; vm_compute; congruence).
+  assert (Hr : r = RCommit false) by (vm_compute in E; injection E as <- _; reflexivity).
+  subst r.
+  assert (Hm : Margin (exec st2 (nexts 150))) by (vm_compute in E; injection E as <-; vm_compute; discriminate).
+  assert (Hc : cur (exec st2 (nexts 150)) < 207) by (vm_compute in E; injection E as <-; vm_compute; reflexivity).
+  assert (Hp : start_partition (trk (exec st2 (nexts 150))) = 66)
+    by (vm_compute in E; injection E as <-; vm_compute; reflexivity).
+  split; [exact Hi|]. split; [reflexivity|]. split; [left; reflexivity|]. split; [reflexivity|].
+  split; [exact Hm|]. split; [exact Hc|]. split; [exact Hp|].
+  intros oc' ok'.
+  exact (proj1 (C07_no_replay _ (nexts 3) _ ExFailure false st2 (nexts 150)
+                  (mkSubmit 7 207 [mkNull KTx 1 207]) oc' (mkNull KTx 1 207) (mkNull KTx 1 207)
+                  Hi E (or_introl eq_refl) eq_refl Hm Hc (or_introl eq_refl) eq_refl eq_refl) ok').
+Qed.
